@@ -102,10 +102,10 @@ TimesOf(r, ds) ==
            ms == SortInts(IF r.M = <<>> THEN {ds.M} ELSE SS(r.M))
            ss == SortInts(IF r.S = <<>> THEN {ds.S} ELSE SS(r.S))
            nm == Len(ms)  ns == Len(ss)
-       IN [i \in 1..(Len(hs) * nm * ns) |->
-             (hs[((i - 1) \div (nm * ns)) + 1] * 3600) + (ms[(((i - 1) \div ns) % nm) + 1] * 60) + ss[((i - 1) % ns) + 1]]
+       IN SubSeq([i \in 1..(Len(hs) * nm * ns) |->
+             (hs[((i - 1) \div (nm * ns)) + 1] * 3600) + (ms[(((i - 1) \div ns) % nm) + 1] * 60) + ss[((i - 1) % ns) + 1]], 1, Len(hs) * nm * ns)
 Cross(days, times) ==
-  LET nt == Len(times) IN [i \in 1..(Len(days) * nt) |-> <<days[((i - 1) \div nt) + 1], times[((i - 1) % nt) + 1]>>]
+  LET nt == Len(times) IN SubSeq([i \in 1..(Len(days) * nt) |-> <<days[((i - 1) \div nt) + 1], times[((i - 1) % nt) + 1]>>], 1, Len(days) * nt)
 
 (* ---------------- BYSETPOS ---------------- *)
 SetPos(r, c) ==
@@ -127,6 +127,7 @@ RECURSIVE ToBiz(_, _)
 ToBiz(n, dir) == IF IsBizDay(n) THEN n ELSE ToBiz(n + dir, dir)
 HasShift(r) == r.shift # <<0, 0, 0>>
 ShiftDay(r, n) ==
+  IF ~HasShift(r) THEN n ELSE
   LET a == n + r.shift[1] IN
   IF r.shift[3] = 0 THEN a ELSE BizStep(ToBiz(a, r.shift[3]), r.shift[2])
 ShiftAll(r, c) == IF ~HasShift(r) THEN c ELSE [i \in 1..Len(c) |-> <<ShiftDay(r, c[i][1]), c[i][2]>>]
@@ -162,11 +163,24 @@ Take(c, i, first, last, lim, out) ==
   IF i > Len(c) \/ Len(out) >= lim THEN out
   ELSE IF PLt(c[i], first) \/ PLt(last, c[i]) THEN Take(c, i + 1, first, last, lim, out)
   ELSE Take(c, i + 1, first, last, lim, Append(out, c[i]))
+RECURSIVE TakeT(_, _, _, _, _, _, _), TakeD(_, _, _, _, _, _, _)
+(* the same, day by day, without building the (days x times) product *)
+TakeT(d, times, j, first, last, lim, out) ==
+  IF j > Len(times) \/ Len(out) >= lim THEN out
+  ELSE LET x == <<d, times[j]>> IN
+       IF PLt(x, first) \/ PLt(last, x) THEN TakeT(d, times, j + 1, first, last, lim, out)
+       ELSE TakeT(d, times, j + 1, first, last, lim, Append(out, x))
+TakeD(days, times, i, first, last, lim, out) ==
+  IF i > Len(days) \/ Len(out) >= lim THEN out
+  ELSE IF days[i] < first[1] \/ days[i] > last[1] THEN TakeD(days, times, i + 1, first, last, lim, out)
+  ELSE TakeD(days, times, i + 1, first, last, lim, TakeT(days[i], times, 1, first, last, lim, out))
 StepLong(r, ds, times, st, last, lim) ==
   LET p == Period(r, ds, st.k) IN
   IF p.start > last[1] + (IF HasShift(r) THEN 800 ELSE 0) THEN [st EXCEPT !.done = TRUE]
-  ELSE LET c == ShiftAll(r, SetPos(r, Cross(SortInts(p.days), times)))
-           o == Take(c, 1, Pair(ds), last, lim, st.out)
+  ELSE LET o == IF r.pos = <<>>
+                THEN (* the shifted date replaces the unshifted one (dates that coincide are one date) *)
+                     TakeD(SortInts({ShiftDay(r, n) : n \in p.days}), times, 1, Pair(ds), last, lim, st.out)
+                ELSE Take(ShiftAll(r, SetPos(r, Cross(SortInts(p.days), times))), 1, Pair(ds), last, lim, st.out)
        IN [st EXCEPT !.k = @ + 1, !.out = o, !.done = Len(o) >= lim]
 
 (* sub-daily: the period is one hour / minute / second starting at cur *)
